@@ -875,6 +875,14 @@ def collect_compiled(jit_idx, futs):
     return jit, jit_info
 
 
+def mode_tie(case, a, b):
+    """Both radius tables are acceptable values of the variable window function (they differ only at rounding ties)."""
+    p = plan_of(case)
+    if "error" in p or not p["variable"]:
+        return False
+    return not expected_radii(p, a["ok"]["radii"])[1] and not expected_radii(p, b["ok"]["radii"])[1]
+
+
 def same_result(a, b):
     if ("ok" in a) != ("ok" in b):
         return False
@@ -947,11 +955,18 @@ def run(ctx, replay=None):
                    found_input=False)
     jit, jit_info = collect_compiled(jit_idx, futs)
     ex.shutdown()
+    n_mode_ties = 0
     for i, rj in sorted(jit.items()):
         if rj.get("err") == "crash":
             ctx.report("compiled-mode implementation child died: %s" % rj.get("msg", ""), {"stage": "impl-crash", "case": cases[i]})
             break
-        if not same_result(rj, impl[i]):
+        if "ok" in rj and "ok" in impl[i] and rj["ok"]["radii"] != impl[i]["ok"]["radii"] and mode_tie(cases[i], rj, impl[i]):
+            # a variable radius within 1e-6 of a rounding tie (e.g. exactly 1.5): numpy and numba round it differently;
+            # both tables agree with the window function, each mode is judged on its own table
+            n_mode_ties += 1
+            if "events" not in impl[i].get("ok", {}):
+                impl[i] = rj
+        elif not same_result(rj, impl[i]):
             ctx.report("compiled and interpreted execution differ: %s vs %s" % (str(rj)[:250], str(impl[i])[:250]),
                        {"stage": "oracle", "case": cases[i], "compiled": rj, "interpreted": impl[i]})
         elif "ok" in rj:
@@ -960,7 +975,8 @@ def run(ctx, replay=None):
             impl[i] = rj           # judge the compiled result where there is one
     ctx.coverage["modes"] = {"NUMBA_DISABLE_JIT=1": len(impl), "compiled": len(jit),
                              "compiled_wall_s": {k: v["wall_s"] for k, v in jit_info.items()},
-                             "compiled_budget_exhausted": sorted(k for k, v in jit_info.items() if v["rc"] == 124)}
+                             "compiled_budget_exhausted": sorted(k for k, v in jit_info.items() if v["rc"] == 124),
+                             "variable_radius_ties_rounded_differently_by_the_two_modes": n_mode_ties}
     stats = {k: 0 for k in STAT_KEYS}
     corr_bad = []
     before = len(ctx.violations)
